@@ -43,6 +43,65 @@ def run_programs(chk, n):
         rc.classify(chk, "programs", p, real, rep, sp, REGIONS)
 
 
+def run_directed(chk, n):
+    """the placements named in the property, built from schemas: provider around a slot (the consumer
+    arrives through a fill), inside a fill, in a loop, shadowing, siblings, across `only` boundaries"""
+    T = lambda s: {"t": "text", "s": s}
+    lit, var = tplgen.lit, tplgen.var
+
+    def comp(name, body=(), kwargs=(), only=False):
+        return {"t": "comp", "name": name, "kwargs": list(kwargs), "only": only, "dyn": False, "body": list(body)}
+
+    def prov(key, val, body):
+        return {"t": "provide", "key": key, "kwargs": [["k1", val]], "body": body}
+
+    def slot(name, body):
+        return {"t": "slot", "name": lit(name), "default": False, "required": False, "data": [], "body": body}
+
+    def fill(name, body):
+        return {"t": "fill", "name": lit(name), "data": None, "dflt": None, "body": body}
+
+    for i in range(n):
+        r = core.rng(PROP, "directed", i)
+        key = r.choice(["pk", "pq"])
+        other = "pq" if key == "pk" else "pk"
+        dflt = r.choice([None, "D"])
+        consumer = {"name": "q", "template": [T("["), {"t": "out", "e": var("g", "k1")}, T("]")],
+                    "data": [["g", {"inject": key, "dflt": dflt}]]}
+        cons = lambda: comp("q", only=r.random() < 0.3)
+        n_cons = r.randint(1, 3)
+        many = [cons() for _ in range(n_cons)]
+        schema = r.randrange(6)
+        wrapper = {"name": "p", "data": [], "template": []}
+        if schema == 0:      # provider around a slot; consumers arrive through the fill
+            wrapper["template"] = [prov(key, lit("IN"), [T("("), slot("s1", [T("d")]), T(")")])]
+            page = [comp("p", [fill("s1", many)])]
+        elif schema == 1:    # provider inside a fill
+            wrapper["template"] = [slot("s1", [])]
+            page = [comp("p", [fill("s1", [prov(key, lit("F"), many)])])]
+        elif schema == 2:    # provider in a loop, shadowing an outer one
+            wrapper["template"] = [slot("s1", [])]
+            page = [prov(key, lit("OUT"), [{"t": "for", "x": "v", "e": var("xs"), "body": [prov(key, var("v"), many)]}] + many)]
+        elif schema == 3:    # different keys nested; consumer of the outer key inside the inner provider
+            wrapper["template"] = [prov(other, lit("X"), [slot("s1", many)])]
+            page = [prov(key, lit("OUT"), [comp("p"), comp("p", [fill("s1", many)])])]
+        elif schema == 4:    # provider inside a component template, consumers as descendants two levels down
+            wrapper["template"] = [prov(key, lit("T"), [comp("m")])]
+            page = [comp("p"), T("|")] + many
+        else:                # outside every provider
+            wrapper["template"] = [slot("s1", many)]
+            page = [comp("p"), prov(other, lit("Z"), many)]
+        mid = {"name": "m", "data": [], "template": many}
+        p = {"isolated": r.random() < 0.5, "lib": [wrapper, mid, consumer], "entry": {"page": page},
+             "ctx": [["xs", {"l": [tplgen.sval("L1"), tplgen.sval("L2")]}]], "raise": None}
+        (rep, sp), = rc.batch([p])
+        real = tplgen.run_real(p, limit=3.0)
+        chk.count("directed", 1, validated=1)
+        chk.branch(["schema:%d" % schema])
+        chk.nontrivial(real["out"] or real["err"])
+        rc.classify(chk, "directed", p, real, rep, sp, REGIONS)
+
+
 def run_histories(chk, n):
     for i in range(n):
         r = core.rng(PROP, "histories", i)
@@ -95,6 +154,7 @@ def run(tier: str) -> int:
     core.django_setup()
     n = 700 if tier == "quick" else 12000
     run_fixed(chk)
+    run_directed(chk, n // 3)
     run_programs(chk, n)
     run_histories(chk, n // 6)
     chk.assumptions += [
